@@ -1977,7 +1977,12 @@ impl<const MIN_ALIGN: usize> Bump<MIN_ALIGN> {
             debug_assert!(!aligned_ptr.is_null());
             let aligned_ptr = NonNull::new_unchecked(aligned_ptr);
 
-            footer.ptr.set(aligned_ptr);
+            // The static empty chunk is shared by every chunk-less arena (on
+            // any thread) and must never be written to. Only zero-sized
+            // requests can succeed on it, and they leave the finger unchanged.
+            if !footer.is_empty() {
+                footer.ptr.set(aligned_ptr);
+            }
             Some(aligned_ptr)
         }
     }
@@ -2230,7 +2235,9 @@ impl<const MIN_ALIGN: usize> Bump<MIN_ALIGN> {
     unsafe fn is_last_allocation(&self, ptr: NonNull<u8>) -> bool {
         let footer = self.current_chunk_footer.get();
         let footer = footer.as_ref();
-        footer.ptr.get() == ptr
+        // Nothing is reclaimed from (or written to) the shared static empty
+        // chunk.
+        !footer.is_empty() && footer.ptr.get() == ptr
     }
 
     #[inline]
